@@ -573,3 +573,56 @@ def get_cell_size_any(m, meta):
     r2 = toggle_publication(m, meta)
     r2["input"] = "2000 sequential histories (nothing found); " + r2["input"]
     return r2
+
+
+def failed_query(m, meta):
+    """histories in which a get_cell_size() call fails while it queries the terminal (interrupt, termios error): the next successful
+    call at the same terminal size must return what a fresh computation gives"""
+    import term_image
+    import term_image.utils as U
+    state = {"ts": (80, 30), "px": (0, 0), "cell": (10, 20), "fail": None}
+
+    def fake_ioctl(fd, req, buf):
+        buf[0], buf[1], buf[2], buf[3] = state["ts"][1], state["ts"][0], state["px"][0], state["px"][1]
+        return 0
+
+    def fake_query(*a, **k):
+        if not U._queries_enabled:
+            return None
+        if state["fail"] is not None:
+            exc, state["fail"] = state["fail"], None
+            raise exc
+        return b"\x1b[6;%d;%dt\x1b[?62;c" % (state["cell"][1], state["cell"][0])
+    U.fcntl.ioctl = fake_ioctl
+    U.get_terminal_size = lambda: os.terminal_size(state["ts"])
+    U.query_terminal = fake_query
+    U._tty_fd = 0
+    U.os.environ.pop("SHELL", None)
+    problems = []
+    import termios
+    for exc in (KeyboardInterrupt(), termios.error(5, "EIO"), OSError(9, "EBADF")):
+        for first in (True, False):                     # failure on the very first call / on the first call after a resize
+            U._cell_size_cache[:] = (0,) * 4
+            term_image.disable_win_size_swap()
+            term_image.enable_queries()
+            state.update(ts=(80, 30), cell=(10, 20), fail=None)
+            if not first:
+                U.get_cell_size()
+                state.update(ts=(100, 40), cell=(8, 15))
+            state["fail"] = exc
+            try:
+                U.get_cell_size()
+                problems.append({"history": f"first={first}", "observed": f"{type(exc).__name__} from the query was swallowed"})
+                continue
+            except BaseException as e:  # noqa: BLE001
+                if e is not exc:
+                    raise
+            held = not U._cell_size_lock.acquire(blocking=False) if hasattr(U._cell_size_lock, "acquire") else False
+            if not held:
+                U._cell_size_lock.release()
+            got = U.get_cell_size()
+            if held or tuple(got or ()) != state["cell"]:
+                problems.append({"history": ("first call" if first else "first call after a resize") + f" fails with {type(exc).__name__} while querying, then get_cell_size()",
+                                 "observed": tuple(got) if got else None, "fresh": state["cell"], "lock_left_held": held})
+    return {"reproduced": bool(problems), "input": "get_cell_size() interrupted / failing inside query_terminal(), then called again at the same terminal size",
+            "observed": problems[:3]}
